@@ -33,6 +33,12 @@ def find_calls(F, body, *suffixes):
 def wrapper_rule(ck, F, rid, name, mode):
     """mode: 'err' (rollback iff result is Err), 'union' (Err or Ok(None)), 'always'."""
     b = F.body(RD + name)
+    # a test of the result that is first materialised as a bool (`let ok = matches!(&result, Ok(Some(_))); if !ok { rollback }`) is threaded
+    # back into the decision it abbreviates (semantics preserving, on a private copy of the body)
+    import copy
+    from .. import inline
+    b = copy.deepcopy(b)
+    inline._thread_jumps(b); inline._fold_const_switches(b)
     g = cfg_of(b); D = defs_of(b)
     key = '%s : %s' % (rid, name)
     cps = find_calls(F, b, '::checkpoint')
